@@ -31,7 +31,7 @@ static rc::Gen<Step> genStep(const std::string &focus)
 	auto kind = gen::weightedElement<int>({{wc, K_CORRECT}, {wr, K_CACHE_RESET}, {we, K_ERROR}, {wn, K_NOANSWER}, {wf, K_FAULTY}, {wv, K_V0}, {wh, K_HOSTILE}, {wraw, K_RAW}});
 	auto part1 = gen::tuple(kind, gen::weightedElement<int>({{12, 0}, {2, 1}, {1, 2}}), /* open_fails */
 				gen::weightedElement<int>({{10, 0}, {2, 1}, {1, 2}, {1, 3}, {1, 4}, {2, 5}, {2, 6}, {1, 7}, {1, 8}}), /* open_delay */
-				gen::weightedElement<int>({{14, S_OK}, {3, S_PARTIAL}, {1, S_ERROR}, {1, S_WOULDBLOCK}, {1, S_INTR}, {1, S_PARTIAL_THEN_ERROR}, {focus == "C14" ? 4 : 1, S_SLOW_PARTIAL}}),
+				gen::weightedElement<int>({{14, S_OK}, {3, S_PARTIAL}, {1, S_ERROR}, {1, S_WOULDBLOCK}, {1, S_INTR}, {1, S_PARTIAL_THEN_ERROR}, {focus == "C14" ? 4 : 1, S_SLOW_PARTIAL}, {focus == "C14" ? 3 : 1, S_PARTIAL_THEN_INTR}}),
 				gen::weightedElement<int>({{8, 0}, {12, 1}, {4, 2}, {2, 3}, {2, 4}, {1, 5}}), /* advance */
 				gen::oneOf(genMask(0), genMask(0), genMask(1)), gen::weightedElement<int>({{focus == "C18" ? 14 : 24, 0}, {1, 1}, {2, 2}, {1, 3}, {1, 4}, {1, 5}, {1, 6}, {1, 7}, {1, 8}}) /* bulk */,
 				gen::weightedElement<int>({{15, 0}, {1, 1}}) /* new_session */);
